@@ -391,7 +391,8 @@ class Item:
 
     # ---------------------------------------------------------- instantiation: token form + values
     def module_path(self):
-        return '::'.join(['pg', 'gen_derive'] + self.mods)
+        # module_path!() prints a raw module identifier without its r# prefix
+        return '::'.join(['pg', 'gen_derive'] + [strip_raw(m) for m in self.mods])
 
     def inst_type(self, t, env):
         if t.kind == 'lref_str':
@@ -447,7 +448,7 @@ class Item:
     def value(self, r, args, depth=0):
         env = dict(zip(self.params, args))
         ty_args = (["'static"] if self.lifetime else []) + [a.rust() for a in args]
-        turbofish = '::<' + ', '.join(ty_args) + '>' if ty_args else ''
+        turbofish = ''   # the type annotation at the use site drives inference (lifetime arguments are not allowed on variant paths)
         if self.is_enum:
             live = [(i, v) for i, v in enumerate([v for v in self.variants if not v.skip])]
             pos, v = r.choice(live)
